@@ -188,6 +188,7 @@ func (n *Net) NewStream(ctx context.Context, desc *grpc.StreamDesc, method strin
 		verifrt.GoOpt("fault:break:"+ms.Name, verifrt.ThreadOpt{Abs: true, Daemon: true, Low: 2}, func() {
 			n.await("break:"+ms.Name, ms, func() bool { return true })
 			n.mu.Unlock()
+			n.W.Log(Event{Actor: "fault", Op: "break"})
 			ms.Break()
 		})
 	}
